@@ -6,7 +6,7 @@ import struct
 
 from ..cfg import CFG
 from ..core import ordkey
-from ..core import AnalysisError, NotConst, call_name, calls_in, dotted, func_params, norm, qualname_of, walk_no_nested
+from ..core import AnalysisError, NotConst, call_name, calls_in, dotted, enclosing_function, expr_conditions, func_params, norm, qualname_of, walk_no_nested
 
 PROPERTY = "C04"
 EXPLANATION = (
@@ -314,6 +314,32 @@ def run(ctx):
                           "on a truncated file the wrapper's buffer fill is aborted by the decompressor's EOFError and already-decoded frames are dropped",
                           outer or rewrap or c, "decompressor is used directly", key=f"R4.6:{fn.name}:{rn}:buffered-wrapper")
     ctx.floor("R4.6", "read-mode decompressor construction sites", sites, 4)
+    # the same layer added anywhere else on the way to the frame reader: a buffering wrapper may only go around an object that
+    # cannot be one of those decompressors - it lacks `peek` (they all have it) or it is opened right there as a plain file
+    from .. import logic
+    wrappers = 0
+    for m in prog.modules.values():
+        for c in calls_in(m.tree, nested=True):
+            r = prog.resolve_expr(m, c.func)
+            if getattr(r, "name", None) not in WRAPPERS or not c.args:
+                continue
+            fn = enclosing_function(c)
+            if fn is None or prog.in_transparent_helper(c):
+                continue
+            wrappers += 1
+            arg = c.args[0]
+            ra = prog.resolve_expr(m, arg.func) if isinstance(arg, ast.Call) else None
+            plain = getattr(ra, "name", None) in ("builtins.open", "io.open", "io.BytesIO", "io.FileIO", "os.fdopen")
+            fcfg = CFG(fn)
+            node = fcfg.header_node_for_expr(c) or fcfg.node_of(c)
+            prem = logic.facts_as_premises(fcfg.facts_at(node.id)) + list(expr_conditions(c))
+            no_peek = logic.implies(prem, logic.parse(f"not hasattr({norm(arg)}, 'peek')"))
+            where = qualname_of(fn).replace("flow.record.", "")
+            ctx.check(plain or no_peek, "R4.6", f"{where}:{norm(c.func)}({norm(arg)[:30]})", f"`{norm(c)[:70]}` puts a buffering layer around an object that can be a gzip/bz2/lz4 "
+                      f"reader (nothing there establishes `not hasattr({norm(arg)}, 'peek')`): on a truncated file the layer's buffer fill is aborted by the decompressor's EOFError "
+                      "and complete frames that were already decoded are dropped", c, "only objects without peek() (never a raising decompressor) are wrapped",
+                      key=f"R4.6:{where}:buffered-wrapper")
+    ctx.floor("R4.6", "buffering wrapper constructions in the package", wrappers, 2)
 
 
 def _fold(prog, module, e):
